@@ -34,6 +34,9 @@ pub struct TreeCase {
     /// masks over an 18-label pool (wide vertices with overlapping label sets)
     #[serde(default)]
     pub wide: Option<(u32, u32)>,
+    /// mirror mode (see `mirror()`): many-group chains on both sides
+    #[serde(default)]
+    pub mirror: Option<u8>,
 }
 
 #[derive(Debug, Clone, PartialEq, Eq, Serialize, Deserialize)]
@@ -117,7 +120,14 @@ fn make_h(case: &TreeCase, n: usize, with_extras: bool) -> TreeSpec {
         Some((_, mh)) if !with_extras => shape_wide(mh, &case.h, n),
         _ => shape(&case.h, n),
     };
-    let hcap = if case.wide.is_some() && !with_extras { 24usize } else { 12usize };
+    // small right graphs mostly; every fourth one lives in a 256-slot store with large ids
+    let hcap = if case.wide.is_some() && !with_extras {
+        24usize
+    } else if case.cap_sel & 3 == 3 {
+        256usize
+    } else {
+        12usize
+    };
     // arbitrary distinct ids
     let mut free: Vec<usize> = (0..hcap).collect();
     let mut nodes = vec![];
@@ -157,10 +167,53 @@ fn make_h(case: &TreeCase, n: usize, with_extras: bool) -> TreeSpec {
                 label,
                 data: if c % 2 == 0 { Some(data_bytes(u16::from(*c) << 8, u16::from(*a))) } else { None },
                 points_to_root,
+                read: c % 4 == 0 && a % 2 == 0,
             });
         }
     }
-    TreeSpec { cap: hcap, nodes, extras }
+    TreeSpec { cap: hcap, nodes, extras, pairs_first: false }
+}
+
+/// Mirror mode: g and the reachable part of h are the same chain of 2(k+1) vertices,
+/// each built from separately bound pairs that are linked afterwards, so that both
+/// graphs consist of many groups (up to 13, plus one for a detached pair of extras in
+/// h); the merge then creates nothing and stays within every limit.
+fn mirror(case: &TreeCase, k: u8, with_extras: bool) -> (Vec<Call>, TreeSpec, usize) {
+    let len = 2 * (1 + (k as usize % 13));
+    let labs = [Lab::Alpha(0), Lab::Str("foo".into())];
+    let mut calls: Vec<Call> = (0..len).map(Call::Add).collect();
+    for pass in 0..2 {
+        for i in 1..len {
+            if (pass == 0) == (i % 2 == 1) {
+                calls.push(Call::Bind { a: i - 1, b: i, l: labs[i % 2].clone(), parsed: false });
+            }
+        }
+    }
+    for i in 0..len {
+        if (case.order_sel >> (i % 16)) & 1 == 1 {
+            calls.push(Call::Put(i, vec![i as u8; 1 + (i % 3) * 4]));
+        }
+    }
+    let rev = case.left_sel & 1 == 1;
+    let nodes: Vec<TNode> = (0..len)
+        .map(|i| TNode {
+            id: if rev { len - 1 - i } else { i },
+            parent: if i == 0 { None } else { Some(i - 1) },
+            label: if i == 0 { None } else { Some(labs[i % 2].clone()) },
+            data: if (case.cap_sel as usize >> (i % 8)) & 1 == 1 { Some(vec![0x40 + i as u8; 2 + (i % 2) * 8]) } else { None },
+            read: false,
+        })
+        .collect();
+    let mut extras = vec![];
+    if with_extras && !case.extras.is_empty() {
+        // a detached pair created last (its own group), possibly an isolated vertex whose datum was read
+        extras.push(TExtra { id: len, parent: None, label: None, data: Some(vec![1]), points_to_root: None, read: false });
+        extras.push(TExtra { id: len + 1, parent: Some(0), label: Some(Lab::Alpha(0)), data: None, points_to_root: None, read: false });
+        if case.extras.len() >= 2 {
+            extras.push(TExtra { id: len + 2, parent: None, label: None, data: Some(vec![2; 9]), points_to_root: None, read: case.extras[1].0 % 2 == 0 });
+        }
+    }
+    (calls, TreeSpec { cap: len + 4, nodes, extras, pairs_first: true }, 0)
 }
 
 /// Build the concrete calls: junk that is created and completely collected, then g.
@@ -378,24 +431,25 @@ fn tree_strategy() -> BoxedStrategy<TreeCase> {
         any::<bool>(),
         proptest::option::weighted(0.2, (any::<u32>(), any::<u32>())),
     )
-        .prop_map(|(n_sel, cap_sel, junk, g, h, left_sel, extras, order_sel, again, wide)| {
+        .prop_flat_map(|t| (Just(t), proptest::option::weighted(0.06, any::<u8>())))
+        .prop_map(|((n_sel, cap_sel, junk, g, h, left_sel, extras, order_sel, again, wide), mirror)| {
             // wide stars want sparse-ish masks so that the union often fits: AND two draws
             let wide = wide.map(|(a, b)| (a & a.rotate_left(7) | (b & 0x111), b & b.rotate_left(5) | (a & 0x111)));
-            TreeCase { n_sel, cap_sel, junk, g, h, left_sel, extras, order_sel, again, wide }
+            TreeCase { n_sel, cap_sel, junk, g, h, left_sel, extras, order_sel, again, wide: if mirror.is_some() { None } else { wide }, mirror }
         })
         .boxed()
 }
 
 fn case_cfg(case: &TreeCase) -> Cfg {
     let n = if case.wide.is_some() && case.n_sel & 1 == 0 { 16 } else { gen::pick_n(case.n_sel) };
-    let need = case.g.len() + case.h.len() + 2 * case.junk.len() + 6 + if case.wide.is_some() { 40 } else { 0 };
+    let need = case.g.len() + case.h.len() + 2 * case.junk.len() + 6 + if case.wide.is_some() || case.mirror.is_some() { 40 } else { 0 };
     let cap = gen::pick_cap(case.cap_sel).max(need);
     Cfg { n, cap }
 }
 
 impl TreeEngine {
     /// C11: run the calls with the C11 oracle, then the drain epilogue.
-    fn run_c11(cfg: Cfg, calls: &[Call], order_sel: u16) -> (Option<Failure>, crate::engine::CaseOutcome, (u32, usize, usize)) {
+    pub fn run_c11(cfg: Cfg, calls: &[Call], order_sel: u16) -> (Option<Failure>, crate::engine::CaseOutcome, (u32, usize, usize)) {
         let mut o = C11::new();
         let out;
         {
@@ -481,11 +535,16 @@ impl Engine for TreeEngine {
     }
     fn run(&self, case: &TreeCase) -> CaseReport {
         let cfg = case_cfg(case);
-        let Some((mut calls, gids)) = make_calls(case, cfg) else {
-            return CaseReport { events: vec!["construction_closed"], evaluations: 1, ..Default::default() };
+        let (mut calls, left, h) = if let Some(k) = case.mirror {
+            let (c, h, l) = mirror(case, k, self.extras);
+            (c, l, h)
+        } else {
+            let Some((calls, gids)) = make_calls(case, cfg) else {
+                return CaseReport { events: vec!["construction_closed"], evaluations: 1, ..Default::default() };
+            };
+            let left = if case.wide.is_some() && !self.extras && case.left_sel & 3 != 0 { gids[0] } else { gids[idx(u16::from(case.left_sel) << 8, gids.len())] };
+            (calls, left, make_h(case, cfg.n, self.extras))
         };
-        let left = if case.wide.is_some() && !self.extras && case.left_sel & 3 != 0 { gids[0] } else { gids[idx(u16::from(case.left_sel) << 8, gids.len())] };
-        let h = make_h(case, cfg.n, self.extras);
         let mut hs = std::collections::hash_map::DefaultHasher::new();
         (cfg, &calls, &h, left).hash(&mut hs);
         if self.extras {
@@ -506,6 +565,15 @@ impl Engine for TreeEngine {
             }
             if h.extras.iter().any(|e| e.data.is_some()) {
                 events.push("extras.with_data");
+            }
+            if h.extras.iter().any(|e| e.read) {
+                events.push("extras.datum_already_read");
+            }
+            if case.mirror.is_some() {
+                events.push("mirror.many_group_chains");
+                if h.nodes.len() >= 26 {
+                    events.push("mirror.right_graph_with_14_groups");
+                }
             }
             return CaseReport {
                 payload: failure.as_ref().map(|_| json!({"cfg": cfg, "calls": calls, "h": h, "left": left, "rendered": format!("{} ; then merge of {}", render_calls(cfg, &calls), Call::Merge { h: h.clone(), left }.render())})),
@@ -538,6 +606,9 @@ impl Engine for TreeEngine {
         }
         if case.g.len() == 1 && case.wide.is_none() {
             events.push("g.singleton");
+        }
+        if case.mirror.is_some() {
+            events.push("mirror.many_group_chains");
         }
         if case.wide.is_some() {
             events.push("wide_stars");
@@ -621,4 +692,124 @@ impl Engine for TreeEngine {
 #[allow(dead_code)]
 fn unused() {
     let _ = hex_of(&[]);
+}
+
+// ------------------------------------------------------------------ bounded-exhaustive part
+
+/// All rooted trees with up to `max` vertices whose edges carry labels from a 2-label pool
+/// (distinct under one parent), as parent/label vectors in canonical (parent-before-child) order.
+fn all_shapes(max: usize) -> Vec<Vec<(Option<usize>, Option<Lab>)>> {
+    let labels = [Lab::Alpha(0), Lab::Str("foo".into())];
+    let mut out: Vec<Vec<(Option<usize>, Option<Lab>)>> = vec![vec![(None, None)]];
+    let mut frontier = out.clone();
+    for _ in 1..max {
+        let mut next = vec![];
+        for t in &frontier {
+            // attach one more vertex under any existing vertex with an unused label; to avoid
+            // generating the same tree in several orders, the new vertex must not precede the last one
+            let last_parent = t.last().and_then(|x| x.0).unwrap_or(0);
+            for p in last_parent..t.len() {
+                for l in &labels {
+                    if t.iter().any(|x| x.0 == Some(p) && x.1.as_ref() == Some(l)) {
+                        continue;
+                    }
+                    // same parent: labels in increasing pool order only
+                    if p == last_parent && t.len() > 1 && t.last().unwrap().1.as_ref() == Some(&labels[1]) && *l == labels[0] {
+                        continue;
+                    }
+                    let mut n = t.clone();
+                    n.push((Some(p), Some(l.clone())));
+                    next.push(n);
+                }
+            }
+        }
+        out.extend(next.iter().cloned());
+        frontier = next;
+    }
+    out
+}
+
+pub struct TreeEnumEngine {
+    pub max: usize,
+}
+
+impl Engine for TreeEnumEngine {
+    type Case = u8;
+    fn name(&self) -> &'static str {
+        "treegen-enum"
+    }
+    fn strategy(&self, _: Tier) -> BoxedStrategy<u8> {
+        Just(0u8).boxed()
+    }
+    fn run(&self, _: &u8) -> CaseReport {
+        let shapes = all_shapes(self.max);
+        let cfg = Cfg { n: 2, cap: 16 };
+        let mut evals = 0u64;
+        let mut subs = vec![];
+        let mut failure = None;
+        let mut payload = None;
+        let data_of = |bit: bool, i: usize, long: bool| if bit { Some(if long { vec![i as u8 + 1; 9] } else { vec![i as u8 + 1] }) } else { None };
+        'all: for (gi, gs) in shapes.iter().enumerate() {
+            for gmask in 0..(1u32 << gs.len()) {
+                // g: ids 0..n, edges in order, data after the binds (odd masks: the root's datum before)
+                let mut base: Vec<Call> = (0..gs.len()).map(Call::Add).collect();
+                if gmask & 1 == 1 && gi % 2 == 1 {
+                    base.push(Call::Put(0, vec![1; 9]));
+                }
+                for (i, (p, l)) in gs.iter().enumerate().skip(1) {
+                    base.push(Call::Bind { a: p.unwrap(), b: i, l: l.clone().unwrap(), parsed: false });
+                }
+                for i in 0..gs.len() {
+                    if (gmask >> i) & 1 == 1 && !(i == 0 && gi % 2 == 1) {
+                        base.push(Call::Put(i, data_of(true, i, i % 2 == 0).unwrap()));
+                    }
+                }
+                for left in 0..gs.len() {
+                    for hs in &shapes {
+                        for hmask in 0..(1u32 << hs.len()) {
+                            let nodes: Vec<TNode> = hs
+                                .iter()
+                                .enumerate()
+                                .map(|(i, (p, l))| TNode { id: hs.len() - 1 - i, parent: *p, label: l.clone(), data: data_of((hmask >> i) & 1 == 1, i + 4, i % 2 == 1), read: false })
+                                .collect();
+                            let h = TreeSpec { cap: 8, nodes, extras: vec![], pairs_first: false };
+                            let mut calls = base.clone();
+                            calls.push(Call::Merge { h, left });
+                            evals += 1;
+                            let (f, out, (merges, _, _)) = TreeEngine::run_c11(cfg, &calls, (gmask as u16) << 4 | hmask as u16);
+                            if merges >= 1 {
+                                use std::hash::{Hash, Hasher};
+                                let mut hsh = std::collections::hash_map::DefaultHasher::new();
+                                calls.hash(&mut hsh);
+                                subs.push(hsh.finish());
+                            }
+                            if let Some(f) = f {
+                                payload = Some(serde_json::to_value(TreeConcrete { cfg, calls: out.calls.clone(), order_sel: 0 }).map(|mut v| {
+                                    v["rendered"] = json!(render_calls(cfg, &out.calls));
+                                    v
+                                }).unwrap());
+                                failure = Some(f);
+                                break 'all;
+                            }
+                        }
+                    }
+                }
+            }
+        }
+        CaseReport {
+            failure,
+            payload,
+            evaluations: evals,
+            sub_hashes: subs,
+            events: vec!["bounded-exhaustive: every pair of trees up to the size bound over 2 labels, every data placement, every left"],
+            counters: vec![("enumerated_shapes", shapes.len() as u64), ("enumerated_merges", evals)],
+            ..Default::default()
+        }
+    }
+    fn render(&self, _: &u8) -> Value {
+        json!({"enumeration": format!("all pairs of rooted trees with <= {} vertices, labels {{α0, foo}}, every data placement (short/long), every left vertex", self.max)})
+    }
+    fn replay(&self, payload: &Value) -> Option<Failure> {
+        TreeEngine { extras: false }.replay(payload)
+    }
 }
